@@ -147,6 +147,76 @@ Example C07_example_convert :
   /\ run_convert (now PIT true true) [mk KLayer false None 0 false false; mk KBn false (Some 0%nat) 2 false false] false = None.
 Proof. vm_compute. repeat split. Qed.
 
+(* ================================================================ NETWORK LEVEL (Model/ImportNet.v on the concrete layer networks of
+   Model/PitNet.v, composed with C01).  Node kinds covered: network input, Conv1d with its causal pad (full / depthwise, stride,
+   dilation), Conv2d (full / depthwise, zero padding), Linear — each followed or not by BatchNorm, fold_bn on or off per layer, with
+   or without bias —, every channel-wise zero-preserving op that respects pointwise equality (ReLU, ReLU6, pooling, padding,
+   identity/dropout in eval), flatten, residual add, channel concat.  R is any carrier with `laws` (0+x=x, 0*x=0=x*0, 1*x=x=x*1)
+   and `sring` (+ and * commutative and associative, * distributes over +), e.g. Z and Qc; BatchNorm (eval) is y*a_c + sh_c with
+   ARBITRARY per-channel a_c (= gamma_c * rsqrt(var_c+eps), every rsqrt factor) and sh_c (= beta_c - mean_c * a_c).
+   Premise: the imported network is well formed (cwf: parameter shapes, indices point backwards, add operands of equal width,
+   channel-wise ops zero-preserving and extensional). *)
+Require Import Plinio.Model.Conv Plinio.Model.PitNet Plinio.Model.ImportNet Plinio.Proofs.ImportNet.
+Require Plinio.Proofs.Conv.
+From Coq Require Import Lia.
+
+(* the imported network (initial masks all open, BatchNorm attached or folded into weight and bias), evaluated with the code's
+   eval-mode forwards, computes at EVERY node what the original network (plain layers followed by their BatchNorm) computes *)
+Theorem C07_import_sound_network : forall R r0 r1 radd rmul, @Plinio.Proofs.Conv.laws R r0 r1 radd rmul -> sring radd rmul ->
+  forall n (net : list (cnode R)) (x : list (SR R)), cwf R r0 n (import_net R r0 radd rmul net) ->
+  forall i, Forall2 (eqR R) (nth i (ceval_pit R r0 r1 radd rmul (import_net R r0 radd rmul net) x) [])
+                            (nth i (ceval_plain R r0 radd rmul net x) []).
+Proof. exact import_sound_nodes. Qed.
+
+(* with C01_export_sound_concrete: so does the IMMEDIATELY EXPORTED network (plain layers with sliced parameters, re-created
+   BatchNorm when not folded) *)
+Theorem C07_import_export_sound_network : forall R r0 r1 radd rmul, @Plinio.Proofs.Conv.laws R r0 r1 radd rmul -> sring radd rmul ->
+  forall n (net : list (cnode R)) (x : list (SR R)), cwf R r0 n (import_net R r0 radd rmul net) -> length x = n ->
+  forall i, (i < length net)%nat ->
+  Forall2 (eqR R) (nth i (ceval_exp R r0 radd rmul (import_net R r0 radd rmul net) x) []) (nth i (ceval_plain R r0 radd rmul net x) []).
+Proof. exact import_export_sound. Qed.
+
+(* ... which has the original sizes (output channels, kernel taps, dilation of every layer) ... *)
+Theorem C07_import_export_sizes : forall R r0 radd rmul (l : clayer R),
+  exported_sizes R (import_clayer R r0 radd rmul l) (all_true (cout_of R l)) = layer_sizes R l.
+Proof. exact import_export_sizes. Qed.
+
+(* ... and parameters: the slicing done by export with all-true masks is the identity on weight and bias tensors of the right
+   shape (fold off: the original weights; fold on: the folded ones) *)
+Theorem C07_export_params_open : forall R,
+  (forall (dw : bool) (w : w3 R) cout cin K, cshape3 R w cout (if dw then 1%nat else cin) K -> export_w3 dw (all_true cout) (all_true cin) (all_true K) w = w) /\
+  (forall (dw : bool) (w : w4 R) cout cin, cshape2 w cout (if dw then 1%nat else cin) -> export_w4 dw (all_true cout) (all_true cin) w = w) /\
+  (forall (w : list (list R)) cout cin, cshape2 w cout cin -> export_w2 (all_true cout) (all_true cin) w = w) /\
+  (forall (b : option (list R)) cout, cbias_ok R b cout -> export_bias (all_true cout) b = b).
+Proof.
+  intro R. repeat split.
+  - intros. apply export_w3_open. assumption.
+  - intros. apply export_w4_open. assumption.
+  - intros. apply export_w2_open. assumption.
+  - intros. apply export_bias_open. assumption.
+Qed.
+
+(* non-vacuity: a Conv1d (K = 2, no conv bias) with BatchNorm, FOLDED, then an identity op, then a Linear with bias, over Z: the
+   imported network is well formed, and on a concrete input both sides give the same numbers *)
+Definition C07_exnet : list (cnode Z) :=
+  [CInput Z 1; CLayer Z 0 (L1 Z true false [[[1; 2]]; [[3; 4]]]%Z None (Some ([2; 3], [1; -1])%Z) 1 2 1 1 [] 0 0) [];
+   CChan Z 1 (fun s => s); CLayer Z 2 (L0 Z false [[5; 6]]%Z (Some [7]%Z) None 2) []].
+Example C07_exnet_wf : cwf Z 0%Z 1 (import_net Z 0%Z Z.add Z.mul C07_exnet).
+Proof.
+  cbn. unfold cshape3, cshape2, cbias_ok, cbn_ok, respectsR, eqR. cbn.
+  repeat split; try reflexivity; try discriminate; try lia; auto.
+  all: intros; repeat match goal with H : (_ < _)%nat |- _ => revert H end;
+       try (match goal with |- context [match ?c with _ => _ end] => destruct c as [|[|c]] end); intros; try reflexivity; try lia; try discriminate.
+  all: try (destruct ci; [reflexivity|lia]).
+  all: try (match goal with H : Some _ = Some _ |- _ => inversion H end; reflexivity).
+  all: try (eapply fold_bias_ok; eassumption).
+Qed.
+Example C07_exnet_values :
+  let x := [of1 Z (fun t => if (t =? 0)%Z then 1 else if (t =? 1)%Z then 2 else 0)%Z] in
+  map (fun f => f [1%Z]) (nth 1 (ceval_pit Z 0%Z 1%Z Z.add Z.mul (import_net Z 0%Z Z.add Z.mul C07_exnet) x) []) = [11; 32]%Z /\
+  map (fun f => f [1%Z]) (nth 1 (ceval_plain Z 0%Z Z.add Z.mul C07_exnet x) []) = [11; 32]%Z.
+Proof. vm_compute. split; reflexivity. Qed.
+
 Print Assumptions C07_open_time_mask.
 Print Assumptions C07_open_features_mask.
 Print Assumptions C07_open_masks_identity.
@@ -166,3 +236,7 @@ Print Assumptions C07_convert_keeps_user_params_refuted.
 Print Assumptions C07_supernet_wrap_identity.
 Print Assumptions C07_fused_layer_flag.
 Print Assumptions C07_fused_layer_flag_refuted.
+Print Assumptions C07_import_sound_network.
+Print Assumptions C07_import_export_sound_network.
+Print Assumptions C07_import_export_sizes.
+Print Assumptions C07_export_params_open.
